@@ -1199,13 +1199,14 @@ def _filled(I, args, kw, val, what):
         shape = shape[0]
     if isinstance(shape, bool) or isinstance(shape, tuple):
         raise Unsupported(what + " with a multi-dimensional shape outside pointwise mode")
-    if isinstance(shape, int):
-        if shape > 64:
-            raise Unsupported(what + " of a large concrete length")
-        return tuple(val for _ in range(shape))
+    dt = kw.get("dtype")
+    if dt is not None and (dt is bool or getattr(dt, "name", None) == "bool"):
+        val = bool(val)
     zn = to_int_z(shape)
     I.ctx.oblige_implicit(what + "-length-nonnegative", zn >= 0)
-    return SymSeq(mk(zn), lambda i: val, what)
+    r = SymSeq(mk(zn) if not isinstance(shape, int) else shape, lambda i: val, what)
+    r.fresh_array = True
+    return r
 
 
 @_ext("numpy.zeros")
